@@ -4,6 +4,7 @@ package database
 
 import (
 	"github.com/safing/portbase/database/record"
+	"github.com/safing/portbase/database/storage"
 )
 
 // VerifDrop shuts the storage of a database down and forgets the database
@@ -73,4 +74,21 @@ func VerifRegisteredHooks(name string) []*RegisteredHook {
 	out := make([]*RegisteredHook, len(c.hooks))
 	copy(out, c.hooks)
 	return out
+}
+
+// VerifStartDatabase registers db and creates its controller the way
+// getController does (storage.StartDatabase + newController), but without the
+// on-disk location: only for storages that ignore it (hashmap).
+func VerifStartDatabase(db *Database) error {
+	registryLock.Lock()
+	registry[db.Name] = db
+	registryLock.Unlock()
+	storageInt, err := storage.StartDatabase(db.Name, db.StorageType, "")
+	if err != nil {
+		return err
+	}
+	controllersLock.Lock()
+	controllers[db.Name] = newController(db, storageInt, db.ShadowDelete)
+	controllersLock.Unlock()
+	return nil
 }
